@@ -3,12 +3,12 @@
 EXTENDS BatchLPContract, TraceKit, Integers
 VARIABLES l, m, cur
 vars == <<l, m, cur>>
-NoCfg == [qcap |-> 0, maxbatch |-> 0, bufsize |-> 0, hooks |-> FALSE]
+NoCfg == [qcap |-> 0, maxbatch |-> 0, bufsize |-> 0, hooks |-> FALSE, exact |-> FALSE]
 Init == l = 1 /\ m = Fresh(NoCfg) /\ cur = -1
 TStep == /\ l <= Len(Trace)
          /\ LET e == Trace[l] IN
             IF e.ev = "Cfg"
-              THEN m' = Fresh([qcap |-> e.qcap, maxbatch |-> e.maxbatch, bufsize |-> e.bufsize, hooks |-> e.hooks]) /\ cur' = e.sc
+              THEN m' = Fresh([qcap |-> e.qcap, maxbatch |-> e.maxbatch, bufsize |-> e.bufsize, hooks |-> e.hooks, exact |-> e.hooks /\ e.untainted]) /\ cur' = e.sc
               ELSE IF e.sc # cur   \* straggler of an earlier scenario that was abandoned as non-quiescent
               THEN UNCHANGED <<m, cur>>
               ELSE LET r == Step(m, e) IN
